@@ -43,3 +43,20 @@ var commonAssumptions = []string{
 	"the executor's instruction semantics and the intrinsics listed under coverage.intrinsics_used model the Go semantics / library contracts (validated by native replay of witnesses and counterexamples)",
 	"solver answers (z3 4.8.12 incremental; portfolio of cvc5 --solve-bv-as-int=sum, z3 5.1.0, z3, cvc5 on unknown) are correct; unknown/time-out/error is never counted as success",
 }
+
+func init() {
+	registry["C08"] = &Property{
+		Quick: []HarnessSpec{{Name: "VC08_AcceptOnlyWellFormed", Params: map[string]int{"vsymC08Max": 92}, ConcAlloc: true, MaxDecisions: 4000, MaxPaths: 60000, TimeoutSec: 400, NeedReach: []string{"accept", "reject", "end"}}},
+		Thorough: []HarnessSpec{{Name: "VC08_AcceptOnlyWellFormed", Params: map[string]int{"vsymC08Max": 140}, ConcAlloc: true, MaxDecisions: 8000, MaxPaths: 2000000, TimeoutSec: 3000, NeedReach: []string{"accept", "reject", "end"}}},
+		Bounds: []string{"input: every byte and the length symbolic, length <= 92 bytes (quick) / 140 (thorough)", "allocation sizes derived from header fields are case-split up to input length + 64; larger ones stay symbolic"},
+		Outside: []string{"inputs longer than the bound (the size arithmetic is length-independent, but that is an argument, not a solver result)"},
+		Assumptions: commonAssumptions,
+	}
+	registry["C07"] = &Property{
+		Quick: []HarnessSpec{{Name: "VC07_DecodeEncodeWellFormed", Params: map[string]int{"vsymC07Max": 92}, ConcAlloc: true, MaxDecisions: 4000, MaxPaths: 60000, TimeoutSec: 400, NeedReach: []string{"wellformed", "end"}}},
+		Thorough: []HarnessSpec{{Name: "VC07_DecodeEncodeWellFormed", Params: map[string]int{"vsymC07Max": 130}, ConcAlloc: true, MaxDecisions: 8000, MaxPaths: 2000000, TimeoutSec: 3000, NeedReach: []string{"wellformed", "end"}}},
+		Bounds: []string{"well-formed streams (reference recogniser over the raw bytes) of at most 92 bytes (quick) / 130 (thorough): any number and order of X.509, SHA-256 and externally-managed lists, any owners and data"},
+		Outside: []string{"streams longer than the bound, e.g. real certificates (the codec copies data verbatim; only sizes matter)"},
+		Assumptions: commonAssumptions,
+	}
+}
